@@ -306,6 +306,11 @@ func main() {
 
 	n := run.Scale(700, 2500)
 	for i := 0; i < n; i++ {
+		if i == n/2 {
+			// second half of the run (and everything after it) happens in the post-calibration regime of the
+			// process-wide buffer pools: see codecx.WarmPools
+			codecx.WarmPools()
+		}
 		thr := hx.Pick(r, thresholds)
 		if r.Chance(1, 6) {
 			thr = r.Intn(3000)
